@@ -50,8 +50,8 @@ type RunResult struct {
 }
 
 // groupTargets maps a model group to real API targets.
-var groupRID = map[string]string{"g1": "test.r.a", "g2": "test.q.b", "par": "test.par.c", "g3": "test.sub.x.d"}
-var groupID = map[string]string{"g1": "test.r.a", "g2": "grp.b", "par": "", "g3": "deep.d"}
+var groupRID = map[string]string{"g1": "test.r.a", "g2": "test.q.b", "par": "test.par.c", "g3": "test.sub.x.d", "g4": "test.adm.x"}
+var groupID = map[string]string{"g1": "test.r.a", "g2": "grp.b", "par": "", "g3": "deep.d", "g4": "ten.adm"}
 
 // Scenario is one service instance with monitors.
 type Scenario struct {
@@ -67,6 +67,7 @@ type Scenario struct {
 	mem   map[string]*int // per-group unsynchronised scratch memory (race runs)
 	memMu sync.Mutex
 
+	expect    sync.Map // callback id -> the worker group it must run in
 	serveDone chan error
 	wg        sync.WaitGroup
 	pwg       sync.WaitGroup // producers and API callers only
@@ -87,6 +88,10 @@ func (sc *Scenario) violate(prop, kind, text string, sig map[string]string) {
 // body is executed by every harness callback.
 func (sc *Scenario) body(cb string, group string) {
 	atomic.AddInt32(&sc.ncb, 1)
+	if v, ok := sc.expect.Load(cb); ok && v.(string) != group {
+		sc.violate("C01", "wrong-group", fmt.Sprintf("callback %s ran in worker group %q, its resource belongs to group %q", cb, group, v.(string)), map[string]string{"group": v.(string)})
+		group = v.(string) // occupancy is judged for the group the resource belongs to
+	}
 	var ctr *int32
 	if v, ok := sc.occ.Load(group); ok {
 		ctr = v.(*int32)
@@ -142,6 +147,12 @@ func NewScenario(tr *Tracer, prog Program) *Scenario {
 	s.Handle("r.$id", res.GetResource(handler), res.Call("m", call))
 	s.Handle("q.$id", res.GetResource(handler), res.Call("m", call), res.Group("grp.${id}"))
 	s.Handle("par.$id", res.GetResource(handler), res.Call("m", call), res.Parallel(true))
+	// a second resource pattern whose literal group coincides with the ${id} group of test.q.b
+	s.Handle("s.$id", res.GetResource(handler), res.Call("m", call), res.Group("grp.b"))
+	// a mounted route and a sibling placeholder pattern with a ${tag} group: names under "adm" that
+	// match nothing in the mount fall back to the placeholder pattern and share the group "ten.adm"
+	s.Route("adm", func(m *res.Mux) { m.Handle("settings", res.GetResource(handler), res.Call("m", call)) })
+	s.Handle("$tenant.$doc", res.GetResource(handler), res.Call("m", call), res.Group("ten.${tenant}"))
 	sub := res.NewMux("sub")
 	sub.Handle("x.$id", res.GetResource(handler), res.Call("m", call), res.Group("deep.${id}"))
 	s.Mount("", sub)
@@ -155,6 +166,15 @@ func cbFromQuery(q string) string { return strings.TrimPrefix(q, "cb=") }
 func (sc *Scenario) submit(cb string, sub Sub) {
 	rid := groupRID[sub.Group]
 	gid := groupID[sub.Group]
+	if sub.Group == "g2" && len(cb)%2 == 0 {
+		rid = "test.s.7" // another resource of the same worker group
+	}
+	if sub.Group == "g4" && len(cb)%2 == 0 {
+		rid = "test.adm.y" // enters the mounted "adm" mux, matches nothing there, falls back to $tenant.$doc
+	}
+	if sub.Kind != "withgroup" && sub.Kind != "nomatch" {
+		sc.expect.Store(cb, gid)
+	}
 	sc.tr.Log("sub.call", cb, gid, sub.Kind)
 	switch sub.Kind {
 	case "with":
@@ -180,7 +200,7 @@ func (sc *Scenario) submit(cb string, sub Sub) {
 			sc.tr.Log("delivered", cb)
 		}
 	case "nomatch":
-		if err := sc.svc.With("test.nothing.here", func(res.Resource) { sc.body(cb, "nomatch") }); err == nil {
+		if err := sc.svc.With("test.nothing.here.at.all", func(res.Resource) { sc.body(cb, "nomatch") }); err == nil {
 			sc.violate("C02", "with-no-error", "With on a resource id without handler returned nil", nil)
 		}
 	}
